@@ -18,7 +18,7 @@ TECHNIQUE = 'model checking: exhaustive product of logical documents x all layou
 LEVEL_TEXT = ('for each of 12 (thorough; the other 32 with 2-option menus) logical documents (pairs, enum, 1-2 structs incl. substring/colliding names, all column types, extreme cells) the FULL product of '
               '12 independent layout freedoms (line ends, comments, trailing comments, blank lines, separators, continuation, string style, array notation, '
               'row-name case, interleaving, channel, raw) is rendered and parsed; every parse must equal the document')
-LEVEL_NOTE = ('covers only the enumerated documents and layout menus; pair placement is coupled to the blank-line menu and number format to the array-notation menu; '
+LEVEL_NOTE = ('covers only the enumerated documents and layout menus; pair placement is coupled to the blank-line menu, the enum typedef layout (one label per line / one line / brace on the line of the last label) to the interleaving menu and number format to the array-notation menu; '
               'trusted: the renderer/expected-value code in mc/props/c02.py, numpy')
 RULE = ('history shards: two documents with equal structure/column names but different column types read alternately in one process through every channel; document x layout product, layouts in lexicographic order of the menus (simplest first). Non-trivial: the rendering differs from the canonical '
         'rendering of its document (layout index != 0) or is the canonical one of a document (one per document). Distinct: (document id, layout tuple).')
@@ -48,7 +48,7 @@ QUICK_MENUS = {'eol': ['\n', '\r\n'], 'cmt': ['none', 'all'], 'trail': [False, T
                'raw': [False, True]}
 
 # ------------------------------------------------------------------ documents
-ENUM = {'name': 'COLORS', 'labels': ['RED', 'GREEN_X', 'B']}
+ENUM = {'name': 'COLORS', 'labels': ['RED', 'B', 'GREEN_X']}     # the last label is strictly the longest and is used in rows
 STRUCTS = {
     'A': {'name': 'AB', 'cols': [['ival', 'int'], ['fval', 'float'], ['name', 'char[8]'], ['zed', 'double']]},
     'B': {'name': 'ABC', 'cols': [['dval', 'double'], ['tag', 'char[]'], ['arr', 'int[2]']]},
@@ -169,10 +169,19 @@ def render(doc, lay):
     pairs_lines = [LEAD + k + (SEP + v if v != '' else '') + tcomment() + TRAILB for k, v in doc['pairs']]
     typedefs = []
     for e in doc['enums']:
-        lines = ['typedef' + SEP + 'enum' + SEP + '{']
-        for j, lab in enumerate(e['labels']):
-            lines.append(LEAD + '    ' + lab + (',' if j < len(e['labels']) - 1 else ''))
-        lines.append('}' + SEP + e['name'] + ';')
+        # enum typedef layout, coupled to the interleaving menu: one label per line / everything on one line /
+        # one label per line with the closing brace on the last label's line
+        estyle = {'grouped': 'lines', 'alternate': 'oneline', 'reversed': 'braceonlast'}[lay['inter']]
+        if estyle == 'oneline':
+            lines = [LEAD + 'typedef' + SEP + 'enum' + SEP + '{' + SEP + (',' + SEP).join(e['labels']) + SEP + '}' + SEP + e['name'] + ';' + TRAILB]
+        else:
+            lines = ['typedef' + SEP + 'enum' + SEP + '{']
+            for j, lab in enumerate(e['labels']):
+                lines.append(LEAD + '    ' + lab + (',' if j < len(e['labels']) - 1 else ''))
+            if estyle == 'braceonlast':
+                lines[-1] += SEP + '}' + SEP + e['name'] + ';'
+            else:
+                lines.append('}' + SEP + e['name'] + ';')
         typedefs.append(lines)
     for s in doc['structs']:
         lines = [LEAD + 'typedef' + SEP + 'struct' + SEP + '{' + TRAILB]
@@ -318,7 +327,10 @@ def compare(doc, par, raw):
                 return [('dtype-method', '%s vs %s' % (tab.dtype, par.dtype(name)))]
         for i, cells in enumerate(rows):
             for (cn, cls, w, shape), v in zip(cols, cells):
-                got = tab[cn][i]
+                try:
+                    got = tab[cn][i]
+                except (IndexError, KeyError) as ex:    # ragged columns: size() counts one column, another is shorter
+                    return [('column-short', '%s.%s has no row %d although size() is %d: %r' % (name, cn, i, par.size(name), ex))]
                 if shape:
                     e = tuple(_canon_cell(x, cls, w, raw) for x in v)
                     try:
